@@ -53,6 +53,7 @@ FIXED = [
  ("C15","94f5319","C15:sizes:read-error","afm.Read failed with `bufio.Scanner: token too long` on the library's own output as soon as one line passed 64 KiB (a Notice of 70,000 bytes, a glyph with 9000 ligatures)"),
  ("C20","fe145dd","C20:drift:far-from-origin","the writer added the sum of a curve's three deltas to its tracked position, the decoder adds them one after the other: up to one unit in the last place apart per curve.  `MoveTo(2147483647, 0)` followed by 10,000 curves with deltas of 1/3 decoded 0.0062 away from the requested outline (bound 1/214 = 0.0047); found by a round-7 seeding agent, C20 family drift-far-from-origin"),
  ("C01","40ef90a","C01:crash:seac-chains","a seac composite whose base and accent are the composite before it doubled the outline at every step (composites are resolved in glyph-name order with no bound): a font of under 8 KiB with a chain of 255 such glyphs made type1.Read die with a fatal out-of-memory error, 22 glyphs already built 8 million path commands; the commands copied into a composite now count towards the per-font charstring operator limit.  Remark of a round-10 seeding agent, C01 family seac-chains"),
+ ("C04","4b9b02f","C04:dsc:wrong-value","after a structured comment ended by a form feed (3bf76e0) a `%%+` on the same line was taken for a continuation line: `%%A: 1<FF>%%+ x` gave the value `1 x` instead of `1` (the `%%+` there is an ordinary comment in the middle of a line); remark of a round-10 seeding agent, C04 family dsc (second comment ended by a form feed and followed by `%%+`)"),
  ("C16","c23956e","C16:glyphlist:multi-code-entry-maps-to-U+0000","the 81 glyph list entries denoting several characters mapped to U+0000 (ToUnicode(\"dalethatafpatah\") = [0000] instead of [05D3 05B2])"),
 ]
 OPEN = [
